@@ -5,7 +5,7 @@ import Mimium.Model.SchedHeap
 /-! `drv_c11`: line protocol driver for C11. One input line per case on stdin (as printed by the harness `c11`),
 one output line per case:
   `H <model obs> <verdict> <exact|order-differs>`  for handle histories (verdict: any tie order; 4th: vs the BinaryHeap port)
-  `P <vm model obs> <wasm queue model obs> <info> <wasm model with closure memory obs> <vm model over the BinaryHeap port>
+  `P <vm model obs> <wasm queue model obs> <info> <old WASM discipline: model with closure memory obs, or `-`> <vm model over the BinaryHeap port>
      <wasm queue model over the BinaryHeap port>`    for task tables -/
 open Mimium.Sched
 
@@ -27,11 +27,13 @@ def c11Line (line : String) : String :=
     | some tb =>
       let vm := Vm.run tb.env oracle tb.ticks ()
       let w := W.run tb.env (fun k => k * 31 + 5) tb.ticks ()
-      let m := M.run stdHeap tb.env tb.ticks ()
+      -- the memory model of the OLD discipline (finding F17, repaired): a statistic only, evaluated when the harness says it is
+      -- affordable (9th field `m`; under that discipline the task population of some tables explodes), `-` otherwise.
       -- closure-style tables allocate no record per `@`: the memory model does not apply, the queue model is the prediction
       -- tables with `selK(t, v)` requests (records of two cells): the memory model with record layout
-      let mobs := if tb.closureStyle then showRun w
-        else if tb.hasUpv then showRun (R.run tableFmt stdHeap tb.env tb.ticks ()) else showRun m
+      let mobs := if f.getD 8 "m" != "m" then "-"
+        else if tb.closureStyle then showRun w
+        else if tb.hasUpv then showRun (R.run tableFmt stdHeap tb.env tb.ticks ()) else showRun (M.run stdHeap tb.env tb.ticks ())
       -- the same two loops with the literal BinaryHeap port inside (the `…_on_binary_heap` theorems are about these)
       let vmH := Vm.runH stdHeap tb.env tb.ticks ()
       let wH := W.runH stdHeap tb.env tb.ticks ()
